@@ -93,7 +93,11 @@ def get_class(ctx: Ctx, c: dict) -> type:
     kind = c["kind"]
     fields = c.get("fields", [])
     name = f"C{cid}"
-    if kind == 1:
+    if c.get("parent") is not None and kind in (1, 2):
+        # a plain subclass of a record class: same fields, same constructor, another type
+        pcls = get_class(ctx, CLASS_TABLE.get(c["parent"], {"id": c["parent"]}))
+        cls = type(name, (pcls,), {"__slots__": ()} if kind == 2 else {})
+    elif kind == 1:
         specs = []
         for fname, dflt in fields:
             if dflt is None:
